@@ -1,6 +1,7 @@
 """./check configuration for C03 (see verif_props.py)."""
 
-PROP = {'module': 'GolibsVerif.Theorems.C03',
+PROP = {'technique': 'Lean closed forms per label shape in the panic monad, induction over the label list, iff-characterisation against a declarative grammar for every idna.ToASCII; regenerated limits; differential tie',
+ 'module': 'GolibsVerif.Theorems.C03',
  'namespace': 'GolibsVerif.C03',
  'rule': "names built from a label grammar (lengths 0,1,62,63,64; totals 252..255; '-', '_', digits at first/inner/last; all-digit TLD; "
          'xn--; IDN; invalid UTF-8; empty labels; trailing/leading dots) and single labels; non-trivial = idna.ToASCII succeeds and the '
